@@ -60,6 +60,28 @@ pub fn judge_message(mt: &str, m: &dyn crate::registry::Full, l: &mut Local, cas
         hash_bytes2(mt, &format!("{dbg0}")),
     );
     l.count(&format!("codesets:{}", codes.join("+")), 1);
+    // the accessors and the conversions of each error agree on its code
+    for e in &full {
+        let code = e.error_code().to_string();
+        if e.code() != code {
+            v(l, mt, "accessors-disagree", format!("MT{mt}: error_code() = {code} but code() = {}", e.code()), case);
+        }
+        if let Ok(ve) = guard(|| swift_mt_message::ValidationError::from(e.clone())) {
+            let carried = match &ve {
+                swift_mt_message::ValidationError::BusinessRuleValidation { rule_name, .. } => rule_name == &code,
+                swift_mt_message::ValidationError::FormatValidation { message, .. } | swift_mt_message::ValidationError::ValueValidation { message, .. } => message.starts_with(&format!("{code}:")),
+                _ => false,
+            };
+            if !carried {
+                v(l, mt, "conversion-loses-code", format!("MT{mt}: ValidationError::from(error {code}) does not carry the code: {ve:?}"), case);
+            }
+        }
+        if let Ok(pe) = guard(|| swift_mt_message::ParseError::from(e.clone()))
+            && !pe.to_string().contains(e.message())
+        {
+            v(l, mt, "conversion-loses-message", format!("MT{mt}: ParseError::from(error {code}) renders without the error's message"), case);
+        }
+    }
     if fs.len() > fi.len() || fi[..fs.len()] != fs[..] {
         v(
             l,
